@@ -249,6 +249,30 @@ def report_count(run, spec, results, failing, corr_broken, broken, stats, skippe
             r, sigs = extra_fail
             run.violation(dict(kind='implementation', signatures=sigs, minimal=describe(r), observed=r.impl[:4000],
                                oracles_on_implementation=r.impl_or, found_by='targeted search after a broken correspondence'))
+        elif corr_broken and spec.get('model_is_spec'):
+            # C03: the property *is* "the history is the one the published procedure prescribes", and the Lean model is the
+            # formalised procedure, so an input on which the two histories differ is the failing input
+            first = corr_broken[0]
+            proj = spec['proj']
+            def differs(q, r=first):
+                rr = campaign.evaluate([(r.family, q, r.o)])[0]
+                if rr.same or rr.impl.startswith('CRASH') or rr.impl.startswith('TIMEOUT'):
+                    return False
+                campaign.model_lines([rr])
+                try:
+                    return proj(rr.model_line) != proj(rr.impl)
+                except Exception:
+                    return True
+            try:
+                small = shrink(first, differs)
+            except Exception:
+                small = first.p
+            rr = campaign.evaluate([(first.family, small, first.o)])[0]
+            campaign.model_lines([rr])
+            run.violation(dict(kind='implementation', signatures=['history differs from the formalised procedure'],
+                               original=describe(first), minimal=describe(rr),
+                               prescribed_by_model=(rr.model_line or '')[:3000], implementation=rr.impl[:3000],
+                               first_difference=first_diff(rr.model_line or '', rr.impl), disagreeing_cases=len(corr_broken)))
         else:
             first = corr_broken[0] if corr_broken else None
             payload = dict(kind='correspondence' if corr_broken else 'theorem',
@@ -357,7 +381,7 @@ def C02(run):
 def C03(run):
     # the rules with batch exclusions and statute-specific tie rules get double weight
     count_property(run, dict(rules=STAT + ['wigm', 'cfer-batch', 'wigm-prf-batch', 'mpls', 'scotland'],
-                             keys=['C04q', 'C06r', 'C07b', 'C07l', 'C07t', 'C07s'], proj=proj_C03,
+                             keys=['C04q', 'C06r', 'C07b', 'C07l', 'C07t', 'C07s'], proj=proj_C03, model_is_spec=True,
                              options_fn=wigm_fixed4, quick=9000, thorough=150000))
 
 
